@@ -114,9 +114,9 @@ theorem convertAll_cons_ok {t : Ty} {ts : List Ty} {v : Val} {vs cs : List Val}
       exact ⟨c, cs', rfl, rfl, h.symm⟩
 
 theorem step_tail_callable {b : Builtin} {args cs : List Val} {g : Val} {xs : List Val}
-    (hc : convertAll b.params args = .ok cs) (hargs : FOs args = true) (h : b.step cs = .tail g xs) :
+    (hc : convertAll (b.paramsAt args.length) args = .ok cs) (hargs : FOs args = true) (h : b.step cs = .tail g xs) :
     vmCallable g = true := by
-  have key : ∀ t ts, b.params = t :: ts → (t = .callable ∨ ∃ n, t = .func n) →
+  have key : ∀ t ts, b.paramsAt args.length = t :: ts → (t = .callable ∨ ∃ n, t = .func n) →
       ∀ c cs', cs = c :: cs' → vmCallable c = true := by
     intro t ts hp ht c cs' hcs
     rw [hp] at hc
@@ -160,12 +160,13 @@ theorem call_agrees (code : List Instr) : ∀ (fuel : Nat) (f : Val) (args S : L
     | lam _ _ => simp [FO] at hf
     | builtin b =>
       simp only [callFromStack, applyFn, splitArgs_frame, List.cons_append]
-      by_cases h1 : args.length > b.arity
+      by_cases h1 : args.length > b.want args.length
       · simp [h1, liftRes]
       · simp only [h1, if_false]
-        by_cases h2 : args.length = b.arity
-        · simp only [h2, beq_self_eq_true, if_true]
-          cases hc : convertAll b.params args with
+        by_cases h2 : args.length = b.want args.length
+        · have h2' : (args.length == b.want args.length) = true := by simpa using h2
+          simp only [h2', if_true]
+          cases hc : convertAll (b.paramsAt args.length) args with
           | error e => simp [liftRes]
           | ok cs =>
             have hcs := convertAll_FO hc hargs
@@ -177,14 +178,14 @@ theorem call_agrees (code : List Instr) : ∀ (fuel : Nat) (f : Val) (args S : L
             | tail g xs =>
               obtain ⟨hg, hxs⟩ := step_tail_FO hs hcs
               have hgc := step_tail_callable hc hargs hs
-              obtain ⟨ih1, ih2⟩ := ih g xs (.int b.arity :: (args.reverse ++ S)) hg hgc hxs
+              obtain ⟨ih1, ih2⟩ := ih g xs (.int args.length :: (args.reverse ++ S)) hg hgc hxs
               simp only [hs, ih1]
               cases happ : applyFn fuel g xs with
               | error e => simp only [liftRes]; exact ⟨trivial, fun v' hv' => by cases hv'⟩
               | ok v =>
                 simp only [liftRes]
                 exact ⟨trivial, fun v' hv' => by injection hv' with hv'; subst hv'; exact ih2 _ happ⟩
-        · have h3 : (args.length == b.arity) = false := by simpa using h2
+        · have h3 : (args.length == b.want args.length) = false := by simpa using h2
           simp only [h3, Bool.false_eq_true, if_false, liftRes]
           refine ⟨trivial, ?_⟩
           intro v hv; injection hv with hv; subst hv
